@@ -12,6 +12,10 @@ fn main() {
     if args.len() < 3 {
         usage();
     }
+    if args[1] == "c20-child" {
+        std::panic::set_hook(Box::new(|_| {}));
+        std::process::exit(jvl::c20::child_main());
+    }
     if args[1] == "replay-fuzz" {
         std::panic::set_hook(Box::new(|_| {}));
     }
